@@ -37,6 +37,18 @@ func geom(g string) (int, uint32) {
 	return 1, 2
 }
 
+// reloadBytes is the bit array of the message installed by Reload.  Geometry "1x2": two bytes, every
+// bit set (larger than the first message; every query then tells "m1 loaded" from "m0 loaded" and
+// from "nothing loaded").  Geometry "2x1": ONE byte, empty (smaller than the first message and
+// sparse: anything remembered from the first message - a bit count, bit offsets - either indexes
+// past the new array or sets the wrong bits, which the final-state comparison sees).
+func reloadBytes(g string) []byte {
+	if g == "2x1" {
+		return []byte{0x00}
+	}
+	return []byte{0xff, 0xff}
+}
+
 func testTx() *wire.MsgTx {
 	tx := wire.NewMsgTx(1)
 	ext := wire.OutPoint{Hash: chainhash.Hash{0x99}, Index: 1}
@@ -57,8 +69,7 @@ type histOp struct {
 }
 
 // model is the sequential reference: which message is loaded and the bit arrays of both messages.
-// The message installed by Reload has every bit set, so that every query distinguishes "m1 is
-// loaded" from "m0 (empty) is loaded" and from "nothing is loaded".
+// The message installed by Reload depends on the geometry, see reloadBytes.
 type model struct {
 	loaded int // 0 none, 1 m0, 2 m1
 	b      [3]*ref.Bloom
@@ -68,7 +79,7 @@ func newModel(g string) *model {
 	n, k := geom(g)
 	m := &model{loaded: 1}
 	m.b[1] = ref.NewBloom(make([]byte, n), k, 0x1234, 1)
-	m.b[2] = ref.NewBloom(bytes.Repeat([]byte{0xff}, n+1), k, 0x9999, 1)
+	m.b[2] = ref.NewBloom(reloadBytes(g), k, 0x9999, 1)
 	return m
 }
 
@@ -182,7 +193,7 @@ func linearizable(g string, hist []histOp, final string) (bool, []int) {
 func RunBloom(cfg BloomConfig, choose func(step int, enabled []int, runningEnabled bool) int) *Outcome {
 	n, k := geom(cfg.Geom)
 	m0 := wire.NewMsgFilterLoad(make([]byte, n), k, 0x1234, wire.BloomUpdateAll)
-	m1 := wire.NewMsgFilterLoad(bytes.Repeat([]byte{0xff}, n+1), k, 0x9999, wire.BloomUpdateAll)
+	m1 := wire.NewMsgFilterLoad(reloadBytes(cfg.Geom), k, 0x9999, wire.BloomUpdateAll)
 	f := bloom.LoadFilter(m0)
 	hists := make([][]histOp, len(cfg.Progs))
 	bodies := make([]func(), len(cfg.Progs))
